@@ -50,6 +50,8 @@ def select(ctx):
 
 def run(ctx):
     stacks, plan = select(ctx)
+    stacks, oversize = g.filter_by_real_view_size(ctx, stacks, HDR2)
+    ctx.cov["stacks_over_field_view_size_limit_excluded"] = oversize
     per_tu = 24
     js = []
     for b in range(0, len(stacks), per_tu):
